@@ -263,6 +263,8 @@ class StrSym:
                 if f.attr == "format":
                     return [[hole(f"UNKNOWN:format {norm(e)[:40]}", (), e)]]
                 w = f.attr + "(" + ",".join(repr(a) if a is not None else "?" for a in args) + ")"
+                if f.attr == "replace" and (len(e.args) != 2 or e.keywords):
+                    w = "replace-limited" + w[len("replace"):]      # a count: not every occurrence is replaced
                 return self._wrap(base, w)
             if f.attr == "render":
                 # jinja2 Template.render(**kw): the folded template text with {{ name }} replaced by the keyword values
@@ -282,6 +284,10 @@ class StrSym:
             pat = ctx.folder.try_fold(mod, e.args[0], self._cls(fi))
             rep = ctx.folder.try_fold(mod, e.args[1], self._cls(fi))
             inner = self._ev(fi, mod, e.args[2], env, depth)
+            # a fourth positional argument is `count` (a flags constant given there limits the number of replacements)
+            limited = len(e.args) > 3 or any(k.arg == "count" for k in e.keywords)
+            if limited:
+                return self._wrap(inner, "re.sub(?)")
             return self._wrap(inner, f"re.sub({pat!r},{rep!r})" if isinstance(pat, str) and isinstance(rep, str) else "re.sub(?)")
         short = fn.split(".")[-1]
         if short in self.opaque and e.args:
